@@ -19,7 +19,7 @@ def gen(rng, tier):
     n = 220 if tier == 'quick' else 5000
     cases = []
     for _ in range(n):
-        o = progs.Opts(control=False, cut=False, builtins=False, deep=rng.random() < 0.1)
+        o = progs.Opts(open_leaves=0.5 if rng.random() < 0.3 else 0.0, control=False, cut=False, builtins=False, deep=rng.random() < 0.1)
         p = progs.gen_program(rng, o)
         cases.append({'clauses': p['clauses'], 'queries': p['queries']})
     return cases
